@@ -3,7 +3,7 @@ import itertools, random
 from vf.common import ITYPES
 from harness.gen_map import cxx_extents, KINDS
 
-KTYPE = {'i': 'SI', 'r': 'SR', 't': 'ST', 'f': 'SF', 's': 'SS', 'I': 'SCI', 'R': 'SCR', 'S': 'SCS', 'Q': 'SCQ', 'U': 'SCU', 'Z': 'SCZ'}
+KTYPE = {'i': 'SI', 'r': 'SR', 't': 'ST', 'f': 'SF', 's': 'SS', 'I': 'SCI', 'R': 'SCR', 'S': 'SCS', 'Q': 'SCQ', 'U': 'SCU', 'Z': 'SCZ', 'E': 'SEN', 'C': 'SCL'}
 BASIC = 'irfs'
 
 def instances(full=False):
@@ -22,7 +22,7 @@ def instances(full=False):
     # compile-time valued slices, tuples, rank 4, static source extents (fewer index types)
     extra = ['t', 'I', 'R', 'S', 'tI', 'It', 'fR', 'Rf', 'RI', 'IR', 'Sf', 'fS', 'SI', 'tS', 'ft', 'tf',
              'Q', 'fQ', 'Qf', 'QI', 'iQ', 'U', 'Uf', 'fU', 'Ur', 'rU', 'UU', 'Ui', 'iU', 'fUr', 'Z', 'Zf', 'fZ', 'rZ', 'ffI', 'Rff', 'ffR', 'IfR', 'fSI', 'tIf', 'ifrs', 'ffri', 'irff', 'sfif', 'ffff', 'iiii', 'rfii', 'iifr',
-             'fffr', 'rfff', 'iiff', 'fffi', 'sfff', 'fffs', 'ffrii', 'iirff', 'fffff', 'ifffr']      # rank 4-5: layout-preserving and nearly-preserving shapes
+             'E', 'C', 'Ef', 'fE', 'Cf', 'fC', 'rE', 'Cr', 'EC', 'fEf', 'fCr', 'sEf', 'ECf', 'fffr', 'rfff', 'iiff', 'fffi', 'sfff', 'fffs', 'ffrii', 'iirff', 'fffff', 'ifffr']      # rank 4-5: layout-preserving and nearly-preserving shapes
     for t in ('i32', 'u16', 'i64'):
         for ks in extra:
             for kind in ('left', 'right', 'stride'):
